@@ -295,7 +295,7 @@ class RelationshipBuilder(object):
                     association_exists,
                     self.association_version_table.c.operation_type !=
                     Operation.DELETE,
-                    adapt_columns(self.property.secondaryjoin),
+                    adapt_columns(self.property.secondaryjoin, self.manager),
                 )
             ).correlate(self.local_cls, self.remote_cls)
         )
